@@ -72,6 +72,30 @@ func vfC12DP(c int) {
 	}
 }
 
+// ---- Douglas-Peucker on closed rings (the ring paths pass area=true): same laws ----
+
+func vfC12DPRing_N(tier int) int     { return 3 + tier }
+func vfC12DPRing_Label(c int) string { return "closed ring, distinct vertices=" + strconv.Itoa(c+2) }
+
+func vfC12DPRing(c int) {
+	n := c + 2
+	in := vfLine("v", n)
+	in = append(in, in[0])
+	t1, t2 := vfReal("t1"), vfReal("t2")
+	vfAssume(vfAnd(t1 >= 0, t1 < t2))
+	o1, m1 := DouglasPeucker(t1).simplify(in.Clone(), true, true)
+	vfReach("dp-ring")
+	vfSubseq("dp-ring", in, o1, m1)
+	o2, m2 := DouglasPeucker(t2).simplify(in.Clone(), true, true)
+	vfSubseq("dp-ring-larger", in, o2, m2)
+	for _, k := range m2 {
+		vfAssert("dp-ring-larger-threshold-keeps-subset", vfHas(m1, k))
+	}
+	// through the public method: the same vertices
+	pub := DouglasPeucker(t1).Ring(orb.Ring(in.Clone()))
+	vfAssert("dp-ring-public-same-length", len(pub) == len(o1))
+}
+
 // ---- Radial with an uninterpreted distance function ----
 
 func vfC12Radial_N(tier int) int     { return 5 + tier }
